@@ -589,13 +589,57 @@ def account(rep, f, c, rule, fn, b, K, ctr, sig_leaves, loops_of, hybrid=False):
             p = summarize(b, blks, end)
             v = p.env.get(ctr, ('init', ctr))
             some_taken = any(e[0] == 'cond' and isinstance(e[1], tuple) and e[1][0] == 'variant' and e[2] == 'Some' and e[3] == lp['sw'] for e in p.events)
+            enum_driven = (lp['res'][1] or '').startswith('<core::iter::Enumerate<')
+            is_idx = lambda e: e[0] == 'fld' and e[2] == '0' and e[1][0] == 'fld' and e[1][2] == '0' and e[1][1][0] == 'as' and e[1][1][2] == 'Some' and \
+                e[1][1][1][0] == 'call' and len(e[1][1][1]) == 4 and e[1][1][1][3] == lp['bb']
             if end[0] in ('back', 'stop') and end[1] == h and some_taken:
                 n += 1
                 terms, k = add_terms(fold(v))
+                if enum_driven:
+                    # the element's position comes from its enumerate() index: the counter stands still while the part is walked
+                    ok = terms == (('init', ctr),) and k == 0
+                    rep.ob(rule + '.K3.step', '%s:loop(%s):%s+=%d' % (fn, part_str(lp['parts'][0], b), cname, units), ok,
+                           'an iteration over %s.iter().enumerate() changes the position counter (%s) although positions in this part are computed from the index' %
+                           (part_str(lp['parts'][0], b), expr_str(v, b)[:60]), sp_str(b.blocks[blks[-1]]['tsp']), {'element_units': units, 'mode': 'enumerate'}, c)
+                    continue
                 ok = terms == (('init', ctr),) and k == units
                 rep.ob(rule + '.K3.step', '%s:loop(%s):%s+=%d' % (fn, part_str(lp['parts'][0], b), cname, units), ok,
                        'an iteration over %s (elements %d units wide) continues with the position counter changed by %s instead of +%d' %
                        (part_str(lp['parts'][0], b), units, expr_str(v, b)[:60], units), sp_str(b.blocks[blks[-1]]['tsp']), {'element_units': units}, c)
+            elif enum_driven and end[0] == 'stop' and end[1] != h and ctr in p.env:
+                # leaving an enumerate()-driven part with the counter updated: from inside (an offending element at index i) it must
+                # become counter + i * width [+ the position the stride function reported]; after exhaustion counter + part.len() * width
+                n += 1
+                terms, k = add_terms(fold(v))
+                rest = [t for t in terms if t != ('init', ctr)]
+                is_mul = lambda t, pred, cst: t[0] == 'bin' and t[1] == 'Mul' and ((pred(t[2]) and t[3][0] == 'c' and t[3][1] == cst) or (pred(t[3]) and t[2][0] == 'c' and t[2][1] == cst))
+                if some_taken:
+                    idx_t = [t for t in rest if (is_idx(t) if units == 1 else is_mul(t, is_idx, units))]
+                    pay_t = [t for t in rest if is_payload_of_elem_call(t, lp)]
+                    ok = ('init', ctr) in terms and k == 0 and len(idx_t) == 1 and len(pay_t) == (1 if units > 1 else 0) and len(rest) == len(idx_t) + len(pay_t)
+                    why = 'counter + index * %d%s' % (units, ' + reported position' if units > 1 else '')
+                else:
+                    rr_ = Resolver(b)
+
+                    def ex_(e):
+                        if isinstance(e, tuple) and e and e[0] == 'init' and b.single_def(e[1]) is not None:
+                            return rr_.local(e[1])
+                        return tuple(ex_(x) if isinstance(x, tuple) else x for x in e) if isinstance(e, tuple) else e
+                    rest = [ex_(t) for t in rest]
+                    is_len_of = lambda x, part: x[0] == 'len' and part_of(x[1]) == part
+                    whole = [t for t in rest if is_len_of(t, lp['parts'][0])] if units == 1 else \
+                        [t for t in rest if is_mul(t, lambda x: is_len_of(x, lp['parts'][0]), units)]
+                    # the path may run on through the part that follows (the sub-stride tail of the same split) before the next
+                    # loop head: its contribution is its own length or the position() found in it
+                    sib = ('chunks', lp['parts'][0][1], 1) if lp['parts'][0][0] == 'chunks' and lp['parts'][0][2] == 0 else None
+                    later = [t for t in rest if sib is not None and (is_len_of(t, sib) or (
+                        t[0] == 'fld' and t[2] == '0' and t[1][0] == 'as' and t[1][2] == 'Some' and t[1][1][0] == 'call' and (t[1][1][1] or '').endswith('::position')
+                        and iter_roots(t[1][1][2][0]) == [sib]))]
+                    ok = ('init', ctr) in terms and k == 0 and len(whole) == 1 and len(rest) == 1 + len(later) and len(later) <= 1
+                    why = 'counter + %s.len() * %d' % (part_str(lp['parts'][0], b), units)
+                rep.ob(rule + '.K3.step', '%s:loop(%s):leave:%s' % (fn, part_str(lp['parts'][0], b), 'found' if some_taken else 'exhausted'), ok,
+                       'on leaving %s the position counter must become %s; it becomes %s' % (part_str(lp['parts'][0], b), why, expr_str(v, b)[:120]),
+                       sp_str(b.blocks[blks[-1]]['tsp']), {'mode': 'enumerate'}, c)
             elif end[0] == 'return' and some_taken:
                 rv = p.env.get(0)
                 if rv is None:
